@@ -73,6 +73,12 @@ def obs_diff(a, b, tol=1e-9):
     return None
 
 
+def _from_dict(d):
+    from phyclone.tree import Tree
+
+    return Tree.from_dict(d)
+
+
 def restorers(data):
     from phyclone.tree import Tree
     from phyclone.process_trace import create_main_run_output
@@ -123,6 +129,29 @@ def make_invariant(data):
             if d:
                 return ["restore via %s: %s" % (w, d)]
             restored[w] = r
+        # snapshot isolation: a dictionary taken now (as the trace does) must not change when the tree is
+        # afterwards edited IN PLACE - which the subtree sampler does (remove_subtree, moving the outliers out)
+        if ev[0] in ("sub", "move", "prg", "new", "outl", "add_root") or depth <= 2:
+            live = t.copy()
+            snap = live.to_dict()
+            try:
+                for c in list(live.nodes)[:2]:
+                    sr = live.get_parent(c)
+                    sub = live.get_subtree(sr)
+                    live.remove_subtree(sub)
+                    for dp in live.outliers:
+                        live.remove_data_point_from_outliers(dp)
+                        sub.add_data_point_to_outliers(dp)
+                    break
+                live.relabel_nodes()
+            except Exception as e:
+                return ["in-place subtree extraction raised %s: %s" % (type(e).__name__, e)]
+            try:
+                d = obs_diff(o, observable(_from_dict(snap)))
+            except Exception as e:
+                return ["a dictionary taken before an in-place edit no longer restores: %s: %s" % (type(e).__name__, e)]
+            if d:
+                return ["a dictionary taken before an in-place edit of the tree changed with it: %s" % d]
         # one-step bisimulation on the dictionary round trip
         r = restored["dict"]
         hist_is_smc = True  # the restored tree is offered every edit the original gets
@@ -234,13 +263,20 @@ def trace_items(tier):
                         prop = props[k % 3]
                         k += 1
                         base = dict(n=2, iters=iters, thin=thin, burnin=burnin, max_time=mt, clock_step=step, conc_update=conc, proposal=prop,
-                                    outlier_prob=(0.1 if k % 2 else 0.0), subtree_prob=(0.5 if k % 4 == 0 else 0.0))
+                                    outlier_prob=(0.3 if k % 2 else 0.0), subtree_prob=(0.5 if k % 4 in (0, 1) else 0.0))
                         for pol in ("first", "last", "likely", "unlikely"):
                             out.append((base, pol, 0))
                         if iters <= 2 and (tier == "thorough" or (thin == 1 and burnin == 1)):
                             out.append((base, "first", 1))
                         if tier == "thorough" and iters == 3:
                             out.append((dict(base, n=3), "likely", 1))
+    # subtree updates with outlier modelling on three data points: the only place where a recorded tree is
+    # edited in place after it was recorded
+    for prop in props:
+        for iters in (2, 3):
+            cfg = dict(n=3, iters=iters, thin=1, burnin=1, conc_update=(iters == 3), proposal=prop, outlier_prob=0.4, subtree_prob=1.0)
+            for pol in ("first", "last", "likely", "unlikely"):
+                out.append((cfg, pol, 1 if tier == "quick" else 2))
     return out
 
 
